@@ -1408,3 +1408,16 @@ Lemma ads_witnesses_l :
   header_of_ads {| m_explicit := None; m_http := ads_http; m_client_streaming := false |} ads_req = Ok (Some "name=shelves/s1") /\
   emit_ads ads_m = emit_sync ads_m.
 Proof. vm_compute. repeat split; reflexivity. Qed.
+
+(* ================================================================ a parameter listed again wins again *)
+(* the model keeps the rule's parameter list as it is written (no de-duplication): by last_wins_l the value under a key
+   is the LAST contribution, so re-listing A after B hands the key back to A *)
+Definition relisted_A : param := {| p_field := "table_name"; p_template := "{routing_id=projects/*}/**" |}.
+Definition relisted_B : param := {| p_field := "table_name"; p_template := "{routing_id=projects/*/instances/*}/**" |}.
+Definition relisted_m (ps : list param) : method := {| m_explicit := Some ps; m_http := ads_http; m_client_streaming := false |}.
+Definition relisted_req : request := req_of [("table_name", "projects/p1/instances/i1/tables/t1")].
+Lemma relisted_parameter_wins_l :
+  header_of (relisted_m [relisted_A; relisted_B; relisted_A]) relisted_req = Ok (Some "routing_id=projects/p1") /\
+  header_of (relisted_m [relisted_A; relisted_B]) relisted_req = Ok (Some "routing_id=projects/p1/instances/i1") /\
+  emit_metadata (relisted_m [relisted_A; relisted_B; relisted_A]) <> emit_metadata (relisted_m [relisted_A; relisted_B]).
+Proof. vm_compute. repeat split; try reflexivity. discriminate. Qed.
